@@ -120,11 +120,13 @@ HistFailed(line) ==
 
 -----------------------------------------------------------------------------
 (* Model fidelity (warnings, never violations): the serial histories are also run through the L2 model BodyStreamH    *)
-(* instantiated as the tree is (fresh encoder slices, the encoder's result assigned to the captured variable, JSON    *)
-(* the only encodable type, Close bound when deferred); what the harness saw of the real request after every step --   *)
+(* instantiated as the tree is (fresh encoder slices, the encoder's result in a variable of its own, the JSON family   *)
+(* and YAML encodable, Close bound when deferred); what the harness saw of the real request after every step --   *)
 (* verdict, kind of reader and of GetBody installed, where the header / query default is, what a read yields -- is     *)
 (* compared with the model's state.                                                                                     *)
-M == INSTANCE BodyStreamH WITH EncoderBuffer <- "fresh", EncodeVar <- "captured", Encoders <- {"application/json"}, CloseBinding <- "at_defer"
+TreeEncoders == {"application/json", "application/json-patch+json", "application/ld+json", "application/hal+json", "application/vnd.api+json",
+                 "application/problem+json", "application/x-yaml", "application/yaml"}
+M == INSTANCE BodyStreamH WITH EncoderBuffer <- "fresh", EncodeVar <- "own", Encoders <- TreeEncoders, NoEncoder <- "forward", CloseBinding <- "at_defer"
 BranchSets(b, v) == ~Eq(WithDefaults(b, v), v)
 Reenc(s, v) == \/ Has(s, "oneOf") /\ \E i \in DOMAIN s.oneOf : BranchSets(s.oneOf[i], v)
                \/ Has(s, "anyOf") /\ \E i \in DOMAIN s.anyOf : BranchSets(s.anyOf[i], v) /\ \A j \in 1..(i - 1) : ~Matches(s.anyOf[j], v)
